@@ -279,9 +279,17 @@ example : (sigmaSkel.paths true).any (fun p => p.2 != .raised) = true ∧
 example : conforms true [.wBkg, .wait, .rBkg, .wRms] = false ∧ conforms true [.wBkg, .wait, .rBkg, .wRms, .wait, .wBkg] = true ∧
     conforms false [.wBkg, .wait, .rBkg, .wRms] = true ∧ conforms true [.wBkg, .wait, .wBkg, .wait] = false := by decide
 
-/-- **sf2_aborts**: every `except` clause of the regenerated `_sf2` aborts the barrier and re-raises, and one of them
+/-- **sf2_aborts**: every `except` clause of the regenerated `_sf2` aborts the barrier — before any other call — and re-raises, and one of them
     catches `BaseException` — the hypothesis `abort := true` of the repaired protocol, for every exception type -/
 theorem sf2_aborts : handlersOK (Gen.C07.sf2Handlers.map Handler.ofRaw) = true := by decide
+
+/-- **barrier_untimed**: the regenerated `Barrier(...)` constructor has no `timeout` and no `action`, and (by `skel_conforms`: `waitT` conforms to nothing) no `wait` carries a timeout — so a stripe that lags
+    by any amount of time cannot break the barrier: the model's barrier has no timeout transition for good reason -/
+theorem barrier_untimed : barrierCtorOK (BarrierCtor.ofRaw Gen.C07.barrierCtor) = true := by decide
+
+example : barrierCtorOK { parties := "len(ymaxs)", timeout := some 60, action := false } = false ∧
+    barrierCtorOK { parties := "nstripes", timeout := none, action := false } = true ∧
+    conforms false [.wBkg, .waitT, .rBkg, .wRms] = false := by decide
 
 /-! ## 2. Protocol: the repaired code -/
 
